@@ -48,12 +48,20 @@ func g14Alpha(fd *ast.FuncDecl) {
 	keys := map[*ast.Ident]bool{}
 	ast.Inspect(fd, func(x ast.Node) bool {
 		if cl, ok := x.(*ast.CompositeLit); ok {
+			keyed := len(cl.Elts) > 0
 			for _, el := range cl.Elts {
 				if kv, ok := el.(*ast.KeyValueExpr); ok {
 					if id, ok := kv.Key.(*ast.Ident); ok {
 						keys[id] = true
+						continue
 					}
 				}
+				keyed = false
+			}
+			if keyed { // the order of keyed fields is irrelevant
+				sort.SliceStable(cl.Elts, func(i, j int) bool {
+					return cl.Elts[i].(*ast.KeyValueExpr).Key.(*ast.Ident).Name < cl.Elts[j].(*ast.KeyValueExpr).Key.(*ast.Ident).Name
+				})
 			}
 		}
 		return true
@@ -216,6 +224,7 @@ func genG14(repo string, w *Out) error {
 	w.DefN("convert_byte_mask", mask)
 	w.Linef("Definition convert_shifts : list N := [%s].", strings.Join(shifts, "; "))
 
+	var pinned []string
 	// ---- the other JavaScript bodies, pinned as text
 	for _, name := range []string{"dnsDomainIs", "dnsDomainLevels", "isInNet", "isPlainHostName", "isResolvable", "localHostOrDomainIs"} {
 		params, body, err := g14JSFunc(js, name)
@@ -223,6 +232,7 @@ func genG14(repo string, w *Out) error {
 			return err
 		}
 		w.DefStr("js_"+name, "("+params+") "+body)
+		pinned = append(pinned, "js "+name+": ("+params+") "+body)
 	}
 
 	// ---- Go helpers
@@ -270,7 +280,9 @@ func genG14(repo string, w *Out) error {
 			return err
 		}
 		w.DefStr(it.def, b)
+		pinned = append(pinned, it.def+": "+b)
 	}
+	w.DefStrList("pinned", pinned)
 
 	// values the model reads out of those bodies
 	b4, _, _ := g14Body(f4, "ProxyResolver.myIPAddress")
@@ -423,7 +435,7 @@ func genG14(repo string, w *Out) error {
 	sort.Slice(alias, func(i, j int) bool { return alias[i][0] < alias[j][0] })
 	w.Linef("Definition url_mode_alias : list (str * str) := %s.", g14PairList(alias))
 	if !strings.HasPrefix(burl, "if v1.Mode == DIRECT { return nil } ; v2 := v1.Mode ; ") ||
-		!strings.HasSuffix(burl, "return &url.URL{Scheme: strings.ToLower(v2.String()), Host: net.JoinHostPort(v1.Host, v1.Port)}") {
+		!strings.HasSuffix(burl, "return &url.URL{Host: net.JoinHostPort(v1.Host, v1.Port), Scheme: strings.ToLower(v2.String())}") {
 		return fmt.Errorf("Proxy.URL: body %q is not the shape the model knows", burl)
 	}
 	// Mode.String(): names by constant order
